@@ -364,6 +364,15 @@ def gen_queries(rng, verts, tol, n):
     qs = []
     lo = [min(v[i] for v in verts) for i in range(3)]
     hi = [max(v[i] for v in verts) for i in range(3)]
+    # positions held by several vertices (slave copies of a merged patch pair): an exact-position query finds all of them
+    seen, dup = set(), []
+    for v in verts:
+        t = tuple(v)
+        if t in seen and list(t) not in dup:
+            dup.append(list(t))
+        seen.add(t)
+    for v in rng.sample(dup, min(3, len(dup))):
+        qs.append(dict(kind="sphere", p=v, r=None))
     for _ in range(n):
         k = rng.random()
         vi = rng.choice(verts)
